@@ -1,8 +1,34 @@
-(** C16 - the logging proxy is a transparent relay (statements grow). *)
-From Coq Require Import ZArith List Bool String.
-From VD Require Import Base.Bytes Base.Text Model.Recorder Proofs.RecorderP.
+(** C16 - the logging proxy is a transparent relay: the viewer-side parser, which runs before each
+    chunk is forwarded, neither spins nor depends on chunking (statements grow). *)
+From Coq Require Import ZArith List Bool.
+From VD Require Import Base.Bytes Base.Text Model.Recorder Proofs.RecorderP Proofs.ParserP.
 Import ListNotations.
 Open Scope Z_scope.
+
+(** dataReceived always returns or raises - for every parser state reachable from a connection, every
+    time and EVERY byte string, no input makes the while loop spin (the relayed session cannot freeze
+    in the parser). *)
+Theorem C16_parser_never_spins : forall s now d, need_ok s -> forall es, rfeed s now d <> RSpin es.
+Proof. exact rfeed_total. Qed.
+Print Assumptions C16_parser_never_spins.
+
+(** every handler invocation lowers a potential bounded by twice the buffered bytes plus two *)
+Theorem C16_handler_progress : forall s now es s',
+  need_ok s -> r_need s <= len (r_buf s) -> handle s now = HOk es s' -> mu s' < mu s.
+Proof. exact handle_decreases. Qed.
+Print Assumptions C16_handler_progress.
+
+(** what the parser does with the bytes it has does not depend on the bytes that follow them *)
+Theorem C16_handler_locality : forall s now x, ready s -> handle (ext s x) now = lift x (handle s now).
+Proof. exact handle_ext. Qed.
+Print Assumptions C16_handler_locality.
+
+(** a raise happens at the same point of the stream whatever follows, so whether a chunk is forwarded
+    does not depend on how the stream was cut before it *)
+Theorem C16_raise_is_chunk_independent : forall now x s acc es,
+  Run now s acc (RRaise es) -> need_ok s -> Run now (ext s x) acc (RRaise es).
+Proof. exact Run_ext_raise. Qed.
+Print Assumptions C16_raise_is_chunk_independent.
 
 (** Once the 8-byte ClientCutText header is parsed, exactly the announced number of text bytes is
     skipped, nothing is raised, and the parser is back at a message boundary. *)
